@@ -1,2 +1,4 @@
 import GoNfsd.Props.C15
+import GoNfsd.Props.C16
 import GoNfsd.Driver.Mkfs
+import GoNfsd.Driver.Xdr
